@@ -53,3 +53,10 @@ reg("C03", asan=True, crash_is_violation=True,
     level_note="Trusted: numpy, vf/oracle/partrules.py, the label map itself (its correctness is C04's business), the trapezoid Hs as documented for the array-level twin. Cases whose wind-sea fraction or a boundary bin lies within the 0.3 % dispersion approximation are inconclusive.",
     rule="case = (method x spectrum class x dtype x nf x nd x ihmax x requested vs detected in {lt,eq,gt,none}) at numpy level, (method x dtype x leading dims x grid x requested) at accessor level, each position decided separately; distinct = distinct keys; non-trivial = the native routine was observed and the oracle was well conditioned",
     must_observe=["np_ptm1", "np_ptm2", "np_ptm3", "acc_ptm1", "acc_ptm2", "acc_ptm3"])
+
+reg("C05",
+    technique="runtime metamorphic monitor: pairs of recorded executions op(x) / op(T x) over layout, dimension-order, dtype-width and stored-direction transformations, compared after aligning by labels",
+    level_text="For every sampled operation (all statistics, smoothing, regridding, rotation, splitting, PTM1-5, bbox) the real accessor is run on a dataset and on a transformed copy that carries the same labelled values (dims permuted and stored in the new order, Fortran order, strided view, float32<->float64 of float32-representable data, every roll of the direction axis incl. the seam between the first two stored directions, descending directions, sortby) and the two recorded results must agree after alignment by labels (watershed outputs as multisets of partitions). Held = on the pairs observed.",
+    level_note="Trusted: numpy/xarray label alignment in vf/compare.py; tolerances 1e-9 (float64) / 2e-5 (float32), directions on the circle. Discrete decisions that are exact or near ties (equal peaks, equal directional maxima) are inconclusive; watershed methods are exempt from the orientation reversal as the statement says.",
+    rule="case = (operation x transformation x dtype x nd x leading dims x spectrum class); distinct = distinct keys; non-trivial = both executions returned and no discrete tie",
+    must_observe=["hs", "smooth", "ptm1", "ptm3", "interp", "rotate", "dm", "tp"])
